@@ -38,7 +38,7 @@ func runC20(w *core.World, r *core.Report) {
 		if fn == run || fn.Signature.Recv() == nil {
 			continue
 		}
-		if len(flagConstCalls(fn, fTerm, stSetFlag)) > 0 {
+		if _, tests := flagTestEdges(fn, fRead, true); len(tests) > 0 && len(flagConstCalls(fn, fTerm, stSetFlag)) > 0 {
 			dead = fn
 		}
 	}
@@ -162,6 +162,7 @@ func runC20(w *core.World, r *core.Report) {
 		}
 		in, _ := core.Reach(core.Entry(resetFn), isSuccessReturnPred(resetFn), cut)
 		r.Check(in == nil, "R2", core.QName(resetFn)+": restarts the state", resetFn.Pos(), "State.Restart on every success path", "the reset can finish without restarting the state")
+		checkRestartAfterUnwind(w, r, resetFn, "R2")
 	}
 	checkPairing(w, r, "R2", "engine")
 
@@ -246,6 +247,7 @@ func runC20(w *core.World, r *core.Report) {
 				"a run that ended because TERMINATE is set is treated like a normal end (graceful-end detection, reset and unblocking may follow): "+w.PathString(path))
 		}
 	}
+	checkDirtyBehindGate(w, r, "R4")
 	// who may clear TERMINATE (same rule as C06 R5)
 	nreset := 0
 	for _, fn := range w.LibFuncs {
@@ -306,5 +308,44 @@ func runC20(w *core.World, r *core.Report) {
 			}
 		}
 		r.OK("R5", "reset path scanned for flag-byte writes", resetFn.Pos(), fmt.Sprintf("%d functions, %d direct stores", len(fns), n))
+	}
+}
+
+// checkRestartAfterUnwind: State.Restart truncates the navigation stack, so in the reset it must
+// come after the loop that unwinds State and cache level by level: every path to it passes the
+// Top()==true exit of that loop.
+func checkRestartAfterUnwind(w *core.World, r *core.Report, resetFn *ssa.Function, rule string) {
+	cut := core.NewCut()
+	for _, c := range core.CallsTo(resetFn, stTop) {
+		if tc, ok := c.(*ssa.Call); ok {
+			if tv := core.ResultOf(tc, 0); tv != nil {
+				cut.AddEdge(core.EdgesWhere(tv, true)...)
+			}
+		}
+	}
+	for _, c := range core.CallsTo(resetFn, "vm.Rewind") {
+		cut.AddInstr(c.(ssa.Instruction))
+	}
+	for _, c := range core.CallsTo(resetFn, "state.(*State).Restart") {
+		ok, path := core.MustPass(c.(ssa.Instruction), cut)
+		r.Check(ok && len(cut.Edges)+len(cut.Instrs) > 0, rule, core.QName(resetFn)+": Restart only after the unwind", c.Pos(), "behind the Top()==true exit of the unwinding loop",
+			"the state is restarted (navigation stack truncated) before State and cache were unwound level by level: the unwinding loop then pops only one cache scope, the others leak into the next session: "+w.PathString(path))
+	}
+}
+
+// checkDirtyBehindGate: in Vm.Run the DIRTY flag (output pending) is only set behind the
+// TERMINATE-unset edge, so a blocked request produces no output.
+func checkDirtyBehindGate(w *core.World, r *core.Report, rule string) {
+	run := w.Func("vm", "(*Vm).Run")
+	fTerm, ok1 := constOf(w, r, "state", "FLAG_TERMINATE")
+	fDirty, ok2 := constOf(w, r, "state", "FLAG_DIRTY")
+	if run == nil || !ok1 || !ok2 {
+		return
+	}
+	unset, tests := flagTestEdges(run, fTerm, false)
+	for _, c := range flagConstCalls(run, fDirty, stSetFlag) {
+		ok, path := core.MustPass(c.(ssa.Instruction), core.NewCut().AddEdge(unset...))
+		r.Check(ok && len(tests) > 0, rule, "vm.(*Vm).Run: DIRTY only when an instruction will run", c.Pos(), "behind the TERMINATE-unset edge",
+			"output is marked pending although the session may be blocked: a terminated session then renders a page on every later request: "+w.PathString(path))
 	}
 }
